@@ -12,7 +12,7 @@ def register(PROPS):
                  'included into the driver) equal the calendar value, hence each other; echs_instant_lt_p/le_p/eq_p agree with the '
                  'reference order in which an all-day instant precedes every time of its day and a whole-second instant precedes every '
                  'millisecond of its second.  Day level: complete for diff and order (all ordered pairs of days, thorough); add is complete '
-                 'for |delta| <= 1500 days and strided beyond (see bound).  A duration with a sub-day part added to an ALL-DAY instant (mode dayfrac, directly and via echs_event_range, what `echse unroll --format %e\' shows for a DATE event with DURATION:P1DT12H) gives an all-day instant again, on a calendar day that is less than a day away from the true elapsed time (base + floor(d) .. base + ceil(d) days), and the difference of that sum and the base is that whole number of days.  What the daemon is really armed for: in the embedded echsd (engine E2, harness/daemon) a one-shot task is queued for every day of 2020..2040 (thorough: 1971..2099), '
+                 'for |delta| <= 1500 days and strided beyond (see bound).  A duration with a sub-day part added to an ALL-DAY instant (mode dayfrac, directly and via echs_event_range, what `echse unroll --format %e\' shows for a DATE event with DURATION:P1DT12H) gives an all-day instant again, on a calendar day that is less than a day away from the true elapsed time (base + floor(d) .. base + ceil(d) days), and the difference of that sum and the base is that whole number of days.  epoch_to_echs_instant does not depend on what was converted before (mode epochseq): for every ordered pair (t1, t2) of the times listed under "bound" the calls for t1, t2, t1 made back to back in one process each give the calendar value.  What the daemon is really armed for: in the embedded echsd (engine E2, harness/daemon) a one-shot task is queued for every day of 2020..2040 (thorough: 1971..2099), '
                  'once as a DATE and once at a second of the day that moves with the date, and libev\'s armed time is read back: it must be that very second (own civil arithmetic), for the DATE a second of that day.',
         'note': 'The millisecond level is structured, not complete: 7 times of day (+4 whole-second, + all-day) on both sides of every '
                 'month boundary and leap day.  The inverse clauses add(a,diff(b,a))=b and diff(add(a,d),a)=d follow from the two '
@@ -22,17 +22,17 @@ def register(PROPS):
                 'the inputs (instant pairs of one kind, (instant,duration) pairs, field combinations, conversions), all distinct by '
                 'construction; non-trivial = pairs whose two instants lie in different months (days), differ at all (intraday), every '
                 '(instant,duration) pair (durs, dayfrac), field combinations with at least one field out of its range (fixup), every conversion '
-                'except t=0 (epoch, tstamp)',
+                'except t=0 (epoch, tstamp); epochseq: a case is a day, an evaluation an ordered pair (t1, t2) converted as t1, t2, t1, non-trivial when t1 != t2',
         'bound': {
             'quick': 'days: every day 1901-01-01..2099-12-31 x delta in {0, +-1..+-400, +-k*365, +-k*366, +-k*1461 (all k in range), first day, last day}, '
                      'all-day and whole-second kinds; intraday: 24 instants around each of the 2436 month boundaries/leap days x those of the 12 '
                      'boundaries on either side + first + last; durs: the same instants x 33 durations (1 ms .. 36525 d, incl. 2^31 and 2^32 ms) of both signs; '
                      'fixup: 199 years x m 1..24 x d 1..62 x (H 0..48 | all-day) x M {0,59,60,119} x S {0,59,60,63} x ms {0,999,1000,1022,all-sec}; '
-                     'epoch (both library directions) and tstamp: every day x seconds {0,1,43199,43200,86399} (+ all-day, .000/.999 ms for tstamp); dayfrac: the all-day instants on both sides of the 2436 month boundaries/leap days x (w days + r ms), w in {0,1,2,27..31,59,60,365,366,1461,36524}, r in {1,999,1000,59999,60000,3599999,3600000,43199999,43200000,43200001,86399000,86399999}, both signs, two entry points (3.1 million inputs)',
+                     'epoch (both library directions) and tstamp: every day x seconds {0,1,43199,43200,86399} (+ all-day, .000/.999 ms for tstamp); dayfrac: the all-day instants on both sides of the 2436 month boundaries/leap days x (w days + r ms), w in {0,1,2,27..31,59,60,365,366,1461,36524}, r in {1,999,1000,59999,60000,3599999,3600000,43199999,43200000,43200001,86399000,86399999}, both signs, two entry points (3.1 million inputs); epochseq: every day D of 1901-2099, t1 in {D 00:00:00 - 1 s, D 00:00:00, D 00:00:01, D 12:00:00} x t2 in {seconds 0, 1, 86399 of D-3 .. D+3, t1 +- 365/366/1461 d, 1901-01-01T00:00:00, 2099-12-31T23:59:59, unix -1, 0, 2^31 - 1, 2^31}: 9.6 million ordered pairs, three calls each',
             'thorough': 'days: ALL ordered pairs of days 1901..2099 (72684^2) for diff and order in both kinds; add for every |delta| <= 1500 d and '
                         'beyond that every 3rd delta (all-day kind) / every 25th delta (whole-second kind); intraday: every ordered pair of boundaries '
                         '(24x24 instants within 12 boundaries, 10x10 beyond); epoch both directions and tstamp: EVERY second of 1901-2099; '
-                        'durs, dayfrac and fixup as in quick',
+                        'durs, dayfrac, epochseq and fixup as in quick',
         },
         'drivers': [
             D('c08_instant', ['mode=days', 'deltas=quick'],
@@ -43,6 +43,7 @@ def register(PROPS):
             D('c08_instant', ['mode=fixup'], label='fixup'),
             D('c08_instant', ['mode=epoch', 'secs=3'], ['mode=epoch', 'secs=all', '--deadline', '540'], label='epoch'),
             D('c08_tstamp', ['secs=5'], ['secs=all', '--deadline', '540'], label='tstamp'),
+            D('c08_instant', ['mode=epochseq'], label='epoch-call-order'),
             D('e2_explore', ['prop=C08', 'mode=arm', 't0=0', 'y0=2020', 'y1=2040', '--case-timeout', '120'], ['prop=C08', 'mode=arm', 't0=0', '--case-timeout', '300'], label='daemon-arms'),
             D('c08_instant', ['mode=intraday', 'span=2'], label='intraday-asan', variant='asan', shards=4),
             D('c08_instant', ['mode=durs'], label='durs-asan', variant='asan', shards=4),
